@@ -68,6 +68,10 @@ def extra_scripts(B=16):
         # behind a blocked write, the dispatcher waits for the queue to drain - and then the peer
         # goes away
         "flood_quit": L + [["raw", "PWD\r\n" * 40 + "QUIT\r\n"], ["sleep", 20.0], ["close"]],
+        # a command line the server's reader refuses (undecodable bytes / longer than the stream
+        # limit) with a passive listener open, more lines behind it, then the peer goes away
+        "bad_line": L + [["pasv", "EPSV"], ["raw", "CWD /caf\xe9\r\n"], ["sleep", 2.0], ["raw", "PWD\r\n"], ["sleep", 2.0], ["close"]],
+        "long_line": L + [["pasv", "PASV"], ["raw", "CWD /" + "a" * 70000 + "\r\nNOOP\r\n"], ["sleep", 3.0], ["close"]],
     }
 
 
